@@ -14,9 +14,10 @@ FUNCTIONS = ['functions:bytes_to_int', 'functions:int_to_bytes', 'functions:uint
              'classes:Tape.read']
 
 BOUNDS = {
-    'quick': {'integer_bytes': 24, 'decoder_bytes': 24, 'arith_operand_bytes': 8, 'mult_operand_bytes': 3},
+    'quick': {'integer_bytes': 24, 'decoder_bytes': 24, 'arith_operand_bytes': 8,
+              'mult': 'two symbolic operands of <= 2 bytes each; symbolic (<= 8 bytes) x constants'},
     'thorough': {'integer_bytes': 160, 'decoder_bytes': 160, 'arith_operand_bytes': 24,
-                 'mult_operand_bytes': 4},
+                 'mult': 'two symbolic operands of <= 2 bytes each; symbolic (<= 24 bytes) x constants'},
 }
 OUTSIDE = ['integers of more bytes than the stated bound', 'accuracy of libm log2 (contract stub, '
            'validated by concrete evaluation at 2^k+d only)', 'float32 NaN payload bits (one NaN in SMT-LIB FP)']
@@ -211,12 +212,12 @@ def _pyfloordiv(a, b):
     return qf, rf
 
 
-def h_arith(c, pkg, op, ka, kb):
+def h_arith(c, pkg, op, ka, kb, bconst=None):
     """run one integer instruction on the encodings of symbolic a (ka bytes), b (kb bytes): `a` is on top"""
     F = pkg.functions
     stubs.CONFIG.log2_max_bits = 8 * (ka + kb) + 16
     ab = c.bytes('a', ka)
-    bb = c.bytes('b', kb)
+    bb = c.bytes('b', kb) if bconst is None else c.input('b', int(bconst).to_bytes(kb, 'big', signed=True))
     a = from_bytes_model(ab, 'big', signed=True)
     b = from_bytes_model(bb, 'big', signed=True)
     operand, _ = ARITH[op]
@@ -392,12 +393,14 @@ def _params_uint(tier):
 
 def _params_arith(tier):
     K = BOUNDS[tier]['arith_operand_bytes']
-    M = BOUNDS[tier]['mult_operand_bytes']
     sizes = [1, 2, K] if tier == 'quick' else [1, 2, 3, 8, K]
     out = []
     for op in ARITH:
         if op == 'OP_MULT_INTS':
-            ss = [(1, 1), (2, 1), (M, M)] if tier == 'quick' else [(1, 1), (2, 2), (3, 2), (M, M)]
+            ss = [(1, 1), (2, 1), (2, 2)]
+            for ka in ((4, 8) if tier == 'quick' else (4, 8, 16, 24)):
+                for const in (3, -7, 255, 2 ** 31 - 1, -(2 ** 31)):
+                    out.append({'op': op, 'ka': ka, 'kb': 5, 'bconst': const})
         elif op in ('OP_DIV_INTS', 'OP_MOD_INTS'):
             ss = [(1, 1), (2, 1), (2, 2), (3, 1)] if tier == 'quick' else [(1, 1), (2, 1), (2, 2), (4, 2), (4, 4), (8, 3)]
         else:
